@@ -598,7 +598,7 @@ impl<'a> W<'a> {
             chosen[0] = k;
             // S = r, R = [r]B - [k]A: accepted by construction for any decodable key
             if let Some(a) = Pt::decode(&key) {
-                let r = refmodel::Sc::from_bytes_mod_order(&self.rng.arr32());
+                let r = if self.rng.chance(1, 3) { refmodel::Sc::ZERO } else { refmodel::Sc::from_bytes_mod_order(&self.rng.arr32()) };
                 let rp = b.mul_le(&r.to_bytes()).sub(&a.mul_le(&[k]));
                 let mut sg = [0u8; 64];
                 sg[..32].copy_from_slice(&rp.encode());
@@ -858,7 +858,7 @@ impl<'a> W<'a> {
                 self.emit(Step::MBits { u: B(u.to_vec()), bits: B(bits), n });
             }
             3 => {
-                let sign = self.rng.below(2) as u8;
+                let sign = if self.rng.chance(1, 4) { self.rng.below(256) as u8 } else { self.rng.below(2) as u8 };
                 self.emit(Step::MToEd { u: B(u.to_vec()), sign });
             }
             4 => {
